@@ -516,12 +516,12 @@ class MediaCodecCapabilities(ServiceCapabilities):
             self.service_capabilities_bytes = service_capabilities_bytes
         else:
             self.service_capabilities_bytes = bytes(
-                [self.media_type, self.media_codec_type]
+                [self.media_type << 4, self.media_codec_type]
             ) + bytes(self.media_codec_information)
 
     @classmethod
     def from_bytes(cls, data: bytes) -> ServiceCapabilities:
-        media_type = MediaType(data[0])
+        media_type = MediaType(data[0] >> 4)
         media_codec_type = a2dp.CodecType(data[1])
         return cls(
             media_type=media_type,
